@@ -8,7 +8,7 @@ mkdir -p build/work
 ./build/extract -repo /repo -out lean/CoreBGP/Gen
 cp /repo/go.sum harness/go.sum 2>/dev/null || true
 for c in l0 live; do
-  if [ -f harness/cmd/$c/main.go ]; then (cd harness && go build -cover -coverpkg=github.com/jwhited/corebgp,verif/harness/cmd/$c -tags verif -o ../build/$c ./cmd/$c); fi
+  if [ -f harness/cmd/$c/main.go ]; then (cd harness && go build -tags verif -o ../build/$c ./cmd/$c); fi
 done
 (cd lean && lake build driver CoreBGP CoreBGP.AuditCmd)
 echo setup done
